@@ -58,7 +58,7 @@ def set_nolut(v):
 
 
 class Term:
-    __slots__ = ('op', 'w', 'args', 'val', 'id', 'k0', 'k1', '_hash', 'depth')
+    __slots__ = ('op', 'w', 'args', 'val', 'id', 'k0', 'k1', '_hash', 'depth', 'ub')
 
     def __repr__(self):
         return 't%d:%s/%d' % (self.id, self.op, self.w)
@@ -122,6 +122,7 @@ def _mk(op, w, args, val=None, k0=0, k1=0):
     t.id = next(_counter)
     t.k0 = k0
     t.k1 = k1
+    t.ub = ((1 << w) - 1) & ~k0        # numeric upper bound (interval domain); constructors may tighten it
     d = 0
     for a in args:
         if isinstance(a, Term) and a.depth >= d:
@@ -153,6 +154,8 @@ def var(name, w, below=None):
         hb = max(below - 1, 0).bit_length()
         k0 = _mask(w) & ~_mask(hb)
     t = _mk('var', w, (), name, k0, 0)
+    if below is not None:
+        _tighten(t, max(below - 1, 0))
     _vars[name] = t
     return t
 
@@ -188,7 +191,19 @@ def umin(x, w):
 
 
 def umax(x, w):
-    return _mask(w) & ~kb(x, w)[0]
+    if isinstance(x, Term):
+        return x.ub
+    return x & _mask(w)
+
+
+def _tighten(t, ub):
+    """record a numeric upper bound for a freshly built node"""
+    if isinstance(t, Term) and ub < t.ub:
+        t.ub = ub
+        # bits above the bound's highest bit are known zero
+        hb = ub.bit_length()
+        t.k0 |= _mask(t.w) & ~_mask(hb)
+    return t
 
 
 # ---------------------------------------------------------------- lut support
@@ -329,7 +344,7 @@ def lut(tbl, base, w):
         k0 &= ~v
         if not (k1 | k0):
             break
-    return _fin('lut', w, (base,), tbl, k0, k1)
+    return _tighten(_fin('lut', w, (base,), tbl, k0, k1), max(sel) if sel else 0)
 
 
 def _atom(x):
@@ -605,12 +620,17 @@ def add(w, a, b):
         # upper known-zero bits: if both fit in k bits the sum fits in k+1
         ha = umax(a, w).bit_length()
         hb = umax(b, w).bit_length()
-        hi = max(ha, hb) + 1
-        if hi + 8 <= w:
-            # compute at the narrow width and extend (keeps the solver's adders small)
+        hi = (umax(a, w) + umax(b, w)).bit_length()
+        if hi + 8 <= w and w >= 64:
+            # usize arithmetic on small values: compute at the narrow width and extend (keeps the solver's adders small);
+            # 32-bit accumulators (scores) keep their shape so that accumulation chains stay recognisable
             return zext(hi, w, add(hi, trunc(w, hi, a), trunc(w, hi, b)))
         k0 = m & ~_mask(hi) if hi < w else 0
-        return _fin('add', w, (_c(a, w), _c(b, w)), None, k0, 0)
+        r = _fin('add', w, (_c(a, w), _c(b, w)), None, k0, 0)
+        sb = umax(a, w) + umax(b, w)
+        if sb <= m:
+            _tighten(r, sb)
+        return r
     return _fin('add', w, (_c(a, w), _c(b, w)))
 
 
@@ -643,11 +663,15 @@ def mul(w, a, b):
             a, b = b, a
         if isinstance(a, Term) and isinstance(b, Term) and a.id > b.id:
             a, b = b, a
-        hi = umax(a, w).bit_length() + umax(b, w).bit_length()
-        if hi + 8 <= w and hi > 0:
+        hi = (umax(a, w) * umax(b, w)).bit_length()
+        if hi + 8 <= w and hi > 0 and w >= 64:
             return zext(hi, w, mul(hi, trunc(w, hi, a), trunc(w, hi, b)))
         k0 = m & ~_mask(hi) if hi < w else 0
-        return _fin('mul', w, (_c(a, w), _c(b, w)), None, k0, 0)
+        r = _fin('mul', w, (_c(a, w), _c(b, w)), None, k0, 0)
+        pb = umax(a, w) * umax(b, w)
+        if pb <= m:
+            _tighten(r, pb)
+        return r
     return _fin('mul', w, (_c(a, w), _c(b, w)))
 
 
@@ -667,10 +691,11 @@ def udiv(w, a, b):
                 return zext(ka, w, udiv(ka, trunc(w, ka, a), b & m))
             hi = (umax(a, w) // b).bit_length()
             k0 = m & ~_mask(hi)
+            return _tighten(_fin('udiv', w, (_c(a, w), _c(b, w)), None, k0, 0), umax(a, w) // (b & m))
         else:
             hi = umax(a, w).bit_length()
             k0 = m & ~_mask(hi)
-    return _fin('udiv', w, (_c(a, w), _c(b, w)), None, k0, 0)
+    return _tighten(_fin('udiv', w, (_c(a, w), _c(b, w)), None, k0, 0), umax(a, w))
 
 
 def urem(w, a, b):
@@ -692,10 +717,11 @@ def urem(w, a, b):
                 return zext(ka, w, urem(ka, trunc(w, ka, a), b))
             hi = (b - 1).bit_length()
             k0 = m & ~_mask(hi)
+            return _tighten(_fin('urem', w, (_c(a, w), _c(b, w)), None, k0, 0), min(umax(a, w), b - 1))
         else:
             hi = umax(a, w).bit_length()
             k0 = m & ~_mask(hi)
-    return _fin('urem', w, (_c(a, w), _c(b, w)), None, k0, 0)
+    return _tighten(_fin('urem', w, (_c(a, w), _c(b, w)), None, k0, 0), umax(a, w))
 
 
 def _to_signed(v, w):
@@ -784,7 +810,7 @@ def lshr(w, a, s):
                 return _ac('xor', w, [lshr(w, _u(x), s) for x in a.args])
         k0 = ((a.k0 >> s) | (m & ~(m >> s))) & m
         k1 = a.k1 >> s
-        return _fin('lshr', w, (a, const_term(w, s)), None, k0, k1)
+        return _tighten(_fin('lshr', w, (a, const_term(w, s)), None, k0, k1), a.ub >> s)
     if not RAW:
         r = _fold2(lambda x, y: (x >> y) if y < w else 0, w, a, w, s, w)
         if r is not None:
@@ -819,7 +845,7 @@ def zext(w_from, w_to, a):
         if a.op == 'xor' and not NOLUT and any(x.op == 'lut' for x in a.args):
             return _ac('xor', w_to, [zext(w_from, w_to, _u(x)) for x in a.args])
     hi = _mask(w_to) & ~_mask(w_from)
-    return _fin('zext', w_to, (a,), None, a.k0 | hi, a.k1)
+    return _tighten(_fin('zext', w_to, (a,), None, a.k0 | hi, a.k1), a.ub)
 
 
 def sext(w_from, w_to, a):
@@ -863,7 +889,10 @@ def trunc(w_from, w_to, a):
             return zext(inner.w, w_to, lshr(inner.w, inner, a.args[1].val)) if inner.w < w_to else lshr(w_to, inner, a.args[1].val)
         if a.op == 'ite':
             return ite(w_to, a.args[0], trunc(w_from, w_to, _u(a.args[1])), trunc(w_from, w_to, _u(a.args[2])))
-    return _fin('trunc', w_to, (a,), None, a.k0 & m, a.k1 & m)
+    r = _fin('trunc', w_to, (a,), None, a.k0 & m, a.k1 & m)
+    if a.ub <= m:
+        _tighten(r, a.ub)
+    return r
 
 
 def _u(t):
@@ -1071,7 +1100,7 @@ def ite(w, c, a, b):
         return ite(w, c, a, _u(b.args[2]))
     a0, a1 = kb(a, w)
     b0, b1 = kb(b, w)
-    return _fin('ite', w, (c, _c(a, w), _c(b, w)), None, a0 & b0, a1 & b1)
+    return _tighten(_fin('ite', w, (c, _c(a, w), _c(b, w)), None, a0 & b0, a1 & b1), max(umax(a, w), umax(b, w)))
 
 
 def _xor_parts(x, w):
@@ -1120,7 +1149,7 @@ def select_const(tbl, w_elem, idx, w_idx):
     for v in tbl:
         k1 &= v
         k0 &= ~v
-    return _fin('tblsel', w_elem, (idx,), tbl, k0, k1)
+    return _tighten(_fin('tblsel', w_elem, (idx,), tbl, k0, k1), max(tbl) if tbl else 0)
 
 
 def select_terms(elems, w_elem, idx, w_idx):
